@@ -656,5 +656,5 @@ PROPERTIES = {
             "selects only the two siblings; (c) keyword table: 122 lower-case ASCII strings, each the lower-cased name of its KeywordKind variant, bijective with the enum; a "
             "keyword type is returned only under eq_ignore_ascii_case of the whole word; (d) Inline* comment kinds only when no line break precedes and the token is not first. "
             "(e) closed inventory of the lexer's library byte searches (needles, text searched) and agreement of each block-comment kind with its closing delimiter and the length added. "
-            "Not decided: boundary positions computed by hand-written sub-lexer loops, the AVX2 chunk/tail arithmetic, non-empty-content clause. Added in round 6: (f) directive kinds that take an expression (If, Elseif) end where find_directive_expr_end says; (b) includes maximal munch of the blank scanner.", []),
+            "Not decided: boundary positions computed by hand-written sub-lexer loops, the AVX2 chunk/tail arithmetic, non-empty-content clause. Added in round 6: (f) directive kinds that take an expression (If, Elseif) end where find_directive_expr_end says; (b) includes maximal munch of the blank scanner. Added in round 7: (g) the lexer's asm mode is switched on exactly on the paths that return the keyword asm.", []),
 }
